@@ -62,8 +62,8 @@ template<class X> void terminals(X&& x, std::string const& path, bool all_mutabl
 }
 
 // ---- view-forming steps (applicability decided by rank / constness, never by blind detection) ---------------------
-enum StepId { S_INDEX, S_SLICED, S_STRIDED, S_DROPPED, S_TAKED, S_ROTATED, S_UNROTATED, S_TRANSPOSED, S_REVERSED, S_DIAGONAL, S_PARTITIONED, S_FLATTED, S_PAREN, S_CALLRANGE, S_DEREF_BEGIN, S_ADDR_DEREF, S_NSTEPS };
-static char const* STEPN[] = {"[0]", "sliced(0,1)", "strided(1)", "dropped(0)", "taked(1)", "rotated()", "unrotated()", "transposed()", "reversed()", "diagonal()", "partitioned(1)", "flatted()", "()", "({0,1})", "*begin()", "*&"};
+enum StepId { S_INDEX, S_SLICED, S_STRIDED, S_DROPPED, S_TAKED, S_ROTATED, S_UNROTATED, S_TRANSPOSED, S_REVERSED, S_DIAGONAL, S_PARTITIONED, S_FLATTED, S_PAREN, S_CALLRANGE, S_DEREF_BEGIN, S_ADDR_DEREF, S_REINDEXED, S_REINDEXED2, S_BLOCKED, S_NSTEPS };
+static char const* STEPN[] = {"[0]", "sliced(0,1)", "strided(1)", "dropped(0)", "taked(1)", "rotated()", "unrotated()", "transposed()", "reversed()", "diagonal()", "partitioned(1)", "flatted()", "()", "({0,1})", "*begin()", "*&", "reindexed(0)", "reindexed(0,0)", "blocked(0,1)"};
 
 template<int Depth, class X> void explore(X&& x, std::string const& path, bool all_mutable);
 
@@ -86,6 +86,9 @@ template<int S, int Depth, class X> void try_step(X&& x, std::string const& path
 	else if constexpr(S == S_PAREN) { go(std::forward<X>(x)()); }
 	else if constexpr(S == S_CALLRANGE) { go(std::forward<X>(x)(multi::irange{0, 1})); }
 	else if constexpr(S == S_DEREF_BEGIN) { if constexpr(R > 1) go(*std::forward<X>(x).begin()); }
+	else if constexpr(S == S_REINDEXED) { if constexpr(!(cq && R == 1)) go(std::forward<X>(x).reindexed(0)); }  // (first index 0: the terminals index with 0; what matters here is the TYPE the overload yields) (the 1-D specialisation declares reindexed() for non-const objects only)
+	else if constexpr(S == S_REINDEXED2) { if constexpr(R > 1) go(std::forward<X>(x).reindexed(0, 0)); }
+	else if constexpr(S == S_BLOCKED) { if constexpr(!cq) go(std::forward<X>(x).blocked(0, 1)); }  // (blocked() const& does not compile on the pinned tree)
 	else if constexpr(S == S_ADDR_DEREF) { if constexpr(!is_owning<X>) go(*(&std::forward<X>(x))); }  // the address of a view is a pointer-like object; what it points to is a view again
 }
 template<int Depth, class X, int... S> void all_steps(X&& x, std::string const& path, bool all_mutable, std::integer_sequence<int, S...>) { (try_step<S, Depth>(x, path, all_mutable), ...); (void)x; }
